@@ -6,6 +6,7 @@ import (
 	"sort"
 	"strings"
 	"testing"
+	"unicode/utf8"
 
 	"github.com/gokrazy/rsync/rsyncd"
 
@@ -123,7 +124,12 @@ func genExtraneous(g *Gen, src *fstree.Tree, dst *fstree.Tree, n int) {
 			} else {
 				base += []string{"x", ".bak", "-2", "~"}[g.R.Intn(4)]
 			}
-			p = filepath.Join(filepath.Dir(q), base)
+			if utf8.ValidString(base) {
+				// (a cut through a multi-byte sequence would make a name that is not
+				// valid UTF-8: directories of that kind are the recorded C01 finding -
+				// io/fs path validation - here on the delete walk's side)
+				p = filepath.Join(filepath.Dir(q), base)
+			}
 		}
 		if have[p] {
 			continue
